@@ -20,4 +20,18 @@ theorem select_in_byte_eq (b : BitVec 8) (k : Nat) : selectInByteTable b k = sel
 
 example : selectInByteTable 0b10101010#8 2 = 5 := by decide +kernel
 
+/-- `u64::trailing_zeros` as modelled (`BitVec.ctz`) is the position of the first set bit of the
+bit list, 64 for the zero word. -/
+theorem tz_eq (x : BitVec 64) : tz x = (selectB true (wordBits x) 0).getD 64 := Kernels.tz_eq x
+
+example : tz 0x0000_0F00_0000_0000#64 = 40 ∧ tz 0#64 = 64 := by decide +kernel
+
+/-- `select_in_word_ctz` (the `x &= x-1` loop) returns the position of the `k`-th set bit, 64 if
+there are at most `k` set bits — for every word and every `k`. -/
+theorem select_ctz_eq (x : BitVec 64) (k : Nat) : selectCtz x k = selectInWordSpec x k :=
+  Kernels.selectCtz_eq x k
+
+example : selectCtz 0x8000_0000_00F0_F0F0#64 12 = 63 ∧ selectCtz 0x8000_0000_00F0_F0F0#64 13 = 64 := by
+  decide +kernel
+
 end SV.Props.C02
